@@ -174,6 +174,51 @@ func cloneSet(m map[string]struct{}) map[string]struct{} {
 	return c
 }
 
+// stopEarly consumes seq like a `for range` loop that breaks after `stop`
+// elements: it reports an error when the prefix yielded differs from the first
+// elements of `full`, or when the sequence calls yield again after it returned
+// false (the Go runtime turns that into a panic in a range loop).
+func stopEarly(what string, seq func(func(string, mval) bool), full []skv, stop int) error {
+	if stop > len(full) {
+		stop = len(full)
+	}
+	if stop == 0 {
+		return nil
+	}
+	var got []skv
+	after := 0
+	seq(func(k string, v mval) bool {
+		if len(got) >= stop {
+			after++
+			return false
+		}
+		got = append(got, skv{k, v.N})
+		return len(got) < stop
+	})
+	if after > 0 {
+		return fmt.Errorf("%s: the iterator called yield %d more time(s) after yield returned false at element %d (a `break` in a range loop panics)", what, after, stop)
+	}
+	if len(got) != stop {
+		return fmt.Errorf("%s: stopping after %d elements yielded %d", what, stop, len(got))
+	}
+	for i := range got {
+		if got[i].k != full[i].k {
+			return fmt.Errorf("%s: partial iteration yielded %v, full iteration %v", what, got, full[:stop])
+		}
+	}
+	return nil
+}
+
+func stopEarlyAll(what string, key string, all, prefix, lower func(func(string, mval) bool), stop int) error {
+	if err := stopEarly(what+": All()", all, collectSeq2(all), stop); err != nil {
+		return err
+	}
+	if err := stopEarly(what+fmt.Sprintf(": Prefix(%q)", key), prefix, collectSeq2(prefix), stop); err != nil {
+		return err
+	}
+	return stopEarly(what+fmt.Sprintf(": LowerBound(%q)", key), lower, collectSeq2(lower), stop)
+}
+
 type mapReader interface {
 	Get(string) (mval, bool)
 	Len() int
@@ -222,6 +267,9 @@ func checkMapReads(what string, getV func(string) (mval, bool), length int,
 }
 
 func checkMap(what string, m part.Map[string, mval], key string, want map[string]int) error {
+	if err := stopEarlyAll(what, key, m.All(), m.Prefix(key), m.LowerBound(key), 1+len(key)%2); err != nil {
+		return err
+	}
 	return checkMapReads(what, m.Get, m.Len(),
 		func() []skv { return collectSeq2(m.All()) },
 		func() []skv { return collectSeq2(m.Prefix(key)) },
@@ -250,6 +298,20 @@ func checkSet(what string, s part.Set[string], want map[string]struct{}) error {
 	}
 	var got []string
 	s.All()(func(v string) bool { got = append(got, v); return true })
+	if len(got) > 1 {
+		n, after := 0, 0
+		s.All()(func(v string) bool {
+			if n >= 1 {
+				after++
+				return false
+			}
+			n++
+			return false
+		})
+		if after > 0 {
+			return fmt.Errorf("%s: All() called yield %d more time(s) after yield returned false (a `break` in a range loop over the set panics)", what, after)
+		}
+	}
 	if len(got) != len(ws) {
 		return fmt.Errorf("%s: All()=%q, model %q", what, got, ws)
 	}
